@@ -125,6 +125,22 @@ def freshTrace (w : MapW) : List Op → List Bool
   | [] => []
   | op :: ops => freshAtB w op :: freshTrace (step w op).1 ops
 
+/-- the call targets the newest stacker of the chart (or none that exists) -/
+def latestAtB (w : MapW) (op : Op) : Bool :=
+  match op.sid? with
+  | none => true
+  | some sid => decide (w.stackers.length ≤ sid + 1)
+
+/-- `m.stack().x = …`, `s = m.stack(); s.a += 1; s.loc[…] = …; s = m.stack(); …`: repeated re-stacking where only the
+newest stacker is ever assigned through -/
+def Latest (w : MapW) : List Op → Prop
+  | [] => True
+  | op :: ops => latestAtB w op = true ∧ Latest (step w op).1 ops
+
+def latestTrace (w : MapW) : List Op → List Bool
+  | [] => []
+  | op :: ops => latestAtB w op :: latestTrace (step w op).1 ops
+
 /-- well-formed lists: distinct column names, every row has exactly the columns of its frame -/
 def WFList (l : TList) : Prop := l.frame.cols.Nodup ∧ ∀ r ∈ l.frame.rows, keys r.cells = l.frame.cols
 
